@@ -1,7 +1,7 @@
-//! C06: not implemented yet.
+//! C06: a failing statement has no effect (engine in dmlengine.rs, focus = statements that must fail).
+use super::dmlengine::{run_prop, Focus};
 use crate::Args;
 
-pub fn run(_a: &Args) -> i32 {
-    println!("INCONCLUSIVE property=C06 reason=check not implemented yet");
-    2
+pub fn run(a: &Args) -> i32 {
+    run_prop(a, "C06", Focus::Failing, "generated histories over constraint-bearing schemas (PK, UNIQUE, NOT NULL, CHECK) in which about a third of INSERT/UPDATE statements are built to fail at a random row k of a multi-row statement (duplicate key, NULL into NOT NULL, CHECK violation); whenever the model and TurDB both reject a statement, every table bag and COUNT(*) must equal the state before it. distinct_nontrivial = distinct histories containing at least one statement rejected by both")
 }
